@@ -219,3 +219,54 @@ def rank_loop_rule(prog, chk, rule, file_filter, floor_n):
                    "it is meant to (the statistic computed here ignores some samples)" % (x["n"], list(kinds)[0]),
                    key="%s|%s|%s(%s)" % (rule, f.name, short, x["n"]), nontrivial=bad)
     chk.floor(rule, nk, floor_n)
+
+
+def rank_owner_rule(prog, chk, rule, file_filter, floor_n, accepted=None):
+    """a rank of one data base never indexes another: a loop variable bounded by `X->getSampleNumber()` is a rank of X; used as the
+    rank argument of a per-sample accessor of ANOTHER data base Y (X and Y two different parameters / members of the function),
+    it addresses unrelated samples (`for (ik < dbout->getSampleNumber()) dbin->getSampleCoordinatesInPlace(ik, ..)`)."""
+    import gates
+    from e1_paths import single_def
+    accepted = accepted or {}
+    n = 0
+    for f in sorted(prog.funcs, key=lambda x: (x.file, x.line)):
+        if f.body is None or not any(s_ in f.file for s_ in file_filter):
+            continue
+        owner = {}
+        for loop in f.walk():
+            if loop["k"] == "For" and loop["c"][1] is not None:
+                for x in walk(loop["c"][1]):
+                    if x["k"] == "BinOp" and x.get("op") == "<" and x["c"][0] is not None and x["c"][0]["k"] == "DeclRefExpr":
+                        db = gates.nsample_db(f, x["c"][1])
+                        if db is not None:
+                            owner.setdefault(x["c"][0]["d"], set()).add(db)
+        if not owner:
+            continue
+        gc = gates.GateCtx(f)
+        for c in f.calls():
+            if c["k"] != "MCall" or not (c.get("cls") or "").startswith("Db"):
+                continue
+            ri = gates.rank_arg_index(prog, c)
+            a = call_args(c)
+            if ri is None or ri >= len(a) or a[ri] is None:
+                continue
+            x = a[ri]
+            while x["k"] == "Cast":
+                x = x["c"][0]
+            if x["k"] != "DeclRefExpr" or x.get("d") not in owner or len(owner[x["d"]]) != 1:
+                continue
+            o = call_obj(c)
+            recv = "this" if (o is None or o["k"] == "This") else show(o)
+            own = next(iter(owner[x["d"]]))
+            n += 1
+            bad = gc.other_db(recv, own)
+            short = (c.get("callee") or "").split("::")[-1]
+            why = accepted.get((f.name, recv, x["n"]))
+            if bad:
+                chk.analysed(f)
+            chk.ob(rule, "%s: `%s` (a rank of %s) indexes %s in %s" % (f.name, x["n"], own, recv, short) + (" (accepted: %s)" % why if bad and why else ""),
+                   f.loc(c), (not bad) or bool(why),
+                   detail=None if not bad else "`%s` ranges over the samples of %s and is used as a sample rank of %s: the two data bases are unrelated, the "
+                   "accessor reads / writes another sample than the one intended" % (x["n"], own, recv),
+                   key="%s|%s|%s->%s.%s" % (rule, f.name, x["n"], recv, short), nontrivial=bad)
+    chk.floor(rule, n, floor_n)
